@@ -282,7 +282,7 @@ def _prior_thunks(entry, field, corruption, fact):
     else:
         variants = [(lab, (name, v)) for lab, v in _variants_of("container", args[name], corruption, flags=(name == "is_exact"), stackable=(name == "tcoeffs"), all_leaves=(name != "tcoeffs"))]
 
-    def make(key, value):
+    def make(key, value, dd=0):
         a = dict(args)
         a[key] = value
 
@@ -292,14 +292,19 @@ def _prior_thunks(entry, field, corruption, fact):
             elif exponential:
                 prior = ssm.prior_exponential(a["ode"], a["tcoeffs"], is_exact=a["is_exact"], output_scale=a["output_scale"])
             elif diffuse:
-                prior = ssm.prior_wiener_integrated_diffuse(a["tcoeffs"], a["tcoeffs_std"], output_scale=a["output_scale"])
+                prior = ssm.prior_wiener_integrated_diffuse(a["tcoeffs"], a["tcoeffs_std"], output_scale=a["output_scale"], diffuse_derivatives=dd)
             else:
-                prior = ssm.prior_wiener_integrated(a["tcoeffs"], is_exact=a["is_exact"], output_scale=a["output_scale"])
+                prior = ssm.prior_wiener_integrated(a["tcoeffs"], is_exact=a["is_exact"], output_scale=a["output_scale"], diffuse_derivatives=dd)
             return w.use_prior(fact, prior)
 
         return thunk
 
-    return [(lab, make(k, v)) for lab, (k, v) in variants]
+    out = [(lab, make(k, v)) for lab, (k, v) in variants]
+    if not exponential and name in ("tcoeffs_std", "is_exact", "tcoeffs"):
+        # the same call with one appended diffuse derivative (the containers are padded internally: a malformed one must not
+        # be repaired silently by the padding)
+        out += [(lab + " + diffuse_derivatives=1", make(k, v, dd=1)) for lab, (k, v) in variants]
+    return out
 
 
 def _tree_tcoeffs_thunks(ssm, corruption):
